@@ -137,6 +137,29 @@ def hier_program(depth, kind="class", with_methods=True):
     return src, exp, {"ord": True, "hash": True}
 
 
+def fieldless_program(kind):
+    """A type without fields (methods only) is a JSON object `{}` wherever it occurs: alone, as a field, as a list element;
+    `from_json("{}")` gives it back."""
+    decl = (
+        f"@derive(Debug, Clone, Eq, Serialize, Deserialize)\n{kind} Marker:\n    def label(self) -> str:\n        return \"m\"\n\n\n"
+        "@derive(Debug, Clone, Eq, Serialize, Deserialize)\nmodel Holder:\n    name: str\n    m: Marker\n    ms: List[Marker]\n    n: int\n\n\n"
+    )
+    lines = [
+        "a = Marker()",
+        "println(json_stringify(a))",
+        "println(a.label())",
+        "println(a == Marker())",
+        'h = Holder(name="h", m=Marker(), ms=[Marker(), Marker()], n=-1)',
+        "println(json_stringify(h))",
+        'match Marker.from_json("{}"):\n    case Ok(back):\n        println(back == a)\n    case Err(e):\n        println("from_json failed")',
+        'match Holder.from_json("{\\"name\\":\\"h\\",\\"m\\":{},\\"ms\\":[{},{}],\\"n\\":-1}"):\n    case Ok(hb):\n        println(hb == h)\n    case Err(e2):\n        println("from_json failed")',
+        "match Holder.from_json(json_stringify(h)):\n    case Ok(hc):\n        println(hc == h)\n    case Err(e3):\n        println(\"from_json failed\")",
+    ]
+    exp = ["{}", "m", "true", '{"name":"h","m":{},"ms":[{},{}],"n":-1}', "true", "true", "true"]
+    src = decl + "def main() -> None:\n" + "\n".join("    " + l.replace("\n", "\n    ") for l in lines) + "\n"
+    return src, exp, {"ord": False, "hash": False}
+
+
 def hash_program(shape):
     """Sets and dicts keyed by the model: equal values must collapse, membership must follow structural equality."""
     fields = [f"f{i}" for i in range(len(shape))]
@@ -203,6 +226,9 @@ def run(tier):
         cases.append((("class-hierarchy", f"depth{depth}"), src, exp, caps))
         src, exp, caps = hier_program(depth, with_methods=False)
         cases.append((("class-hierarchy", f"depth{depth}", "no-methods"), src, exp, caps))
+    for kind in ("model", "class"):
+        src, exp, caps = fieldless_program(kind)
+        cases.append((("fieldless", kind), src, exp, caps))
     fr = serve.run_requests([{"id": i, "op": "front", "src": c[1], "emit": False} for i, c in enumerate(cases)])
     # `.clone()` is documented for @derive(Clone) but the checker of the pinned tree rejects it on models: where that is the
     # only complaint, the clone observation is dropped for that shape (recorded in the evidence) instead of losing the shape
